@@ -46,7 +46,7 @@ def gen_requests(ctx):
         reqs.append((scenario, sl.Request(prob, x0, y0, S0, solver, direction, "inner", params, always=rng.random() < 0.5, tol=tol, script=script, **kw)))
     return reqs
 
-def relations(p, x_out, y_out, e_out, y_in, S, tag, finite_required=True):
+def relations(p, x_out, y_out, e_out, y_in, S, tag, finite_required=True, x_prev=None):
     """the C03 relations on a written-back triple; returns list of (sig, msg)"""
     bad = []
     if finite_required and not all(math.isfinite(t) for t in x_out):
@@ -54,7 +54,9 @@ def relations(p, x_out, y_out, e_out, y_in, S, tag, finite_required=True):
         return bad
     for i, v in enumerate(x_out):
         lo, hi = p.Clb[i], p.Cub[i]
-        slack = 4 * max(sl.ulp(v), sl.ulp(lo), sl.ulp(hi))
+        # x̂ = x + (bound - x): the rounding is a few ulps of the OPERANDS x and bound - x (property text), not of the result
+        xp = x_prev[i] if x_prev is not None and i < len(x_prev) and math.isfinite(x_prev[i]) else 0.0
+        slack = 4 * max(sl.ulp(v), sl.ulp(lo), sl.ulp(hi), sl.ulp(xp), sl.ulp(abs(xp) + (abs(lo) if math.isfinite(lo) else 0)), sl.ulp(abs(xp) + (abs(hi) if math.isfinite(hi) else 0)))
         if math.isfinite(v) and not (lo - slack <= v <= hi + slack):
             bad.append(("C03:x-outside-box:" + tag, "x[%d]=%r outside [%r,%r] by more than rounding" % (i, v, lo, hi)))
     if p.m == 0 or not all(math.isfinite(t) for t in x_out):
@@ -92,7 +94,8 @@ def oracle(scenario, rq, o):
             bad.append(("C03:errz-touched-without-overwrite:" + tag, "err_z written although outputs must stay untouched"))
         return bad
     user_finite = scenario not in ("nan", "Lnan")
-    bad += relations(p, x_out, y_out, e_out, rq.y0, rq.S0, tag, finite_required=user_finite)
+    x_prev = sl.V(o["records"][-1], "x") if o["records"] else None
+    bad += relations(p, x_out, y_out, e_out, rq.y0, rq.S0, tag, finite_required=user_finite, x_prev=x_prev)
     return bad
 
 def run(ctx):
